@@ -171,7 +171,13 @@ def standard_ops(sim, ch, tier, *, single_pending=False, delays=False, lo=5, hi=
     n = ops.int(lo, hi)
     names = sorted({t.event for t in sim.sp.trans if t.event}) or ['ea']
     names = (events or names) + ['zz']
-    yield sim.step(sim.draw_truth(gs, *p_true))
+    script = sim.script = []
+
+    def do_step():
+        truth = sim.draw_truth(gs, *p_true)
+        script.append(('step', truth))
+        return sim.step(truth)
+    yield do_step()
     for _ in range(n):
         kinds = [('step', 5), ('queue', 4)]
         if advance:
@@ -184,14 +190,26 @@ def standard_ops(sim, ch, tier, *, single_pending=False, delays=False, lo=5, hi=
             if delays:
                 d = ops.pick([None, None, 0, 1, 2, 2, 5])
             live = sorted({t.event for t in sim.sp.trans if t.event and t.src in set(sim.it.configuration)})
-            if live and ops.flag(3, 4):
-                sim.queue(ops.pick(live), d)
-            else:
-                sim.queue(ops.pick(names), d)
+            name = ops.pick(live) if live and ops.flag(3, 4) else ops.pick(names)
+            script.append(('queue', name, d))
+            sim.queue(name, d)
         elif op == 'advance':
-            sim.advance(ops.pick([F(1), F(0), TICK, F(2), F(5), F(1) - TICK, F(100)]))
+            d = ops.pick([F(1), F(0), TICK, F(2), F(5), F(1) - TICK, F(100)])
+            script.append(('advance', d))
+            sim.advance(d)
         else:
-            yield sim.step(sim.draw_truth(gs, *p_true))
+            yield do_step()
+
+
+def replay_script(sim, script):
+    """Re-execute a recorded operation script on another Sim (twin runs); yields the StepRecs."""
+    for op in script:
+        if op[0] == 'queue':
+            sim.queue(op[1], op[2])
+        elif op[0] == 'advance':
+            sim.advance(op[1])
+        else:
+            yield sim.step(op[1])
 
 
 # ----------------------------------------------------------------------------- micro-step groups
